@@ -428,6 +428,9 @@ def c17_rows(lrus):
     from hooks import guarded
     rows = []
     skipped = 0
+    # one long-lived index answers expand_prefix for every member of every class, members of a class
+    # being asked one after the other (an answer must not depend on what was expanded before)
+    shared = impl.Index("memory", {"k": "never"}, [])
     for i, l in enumerate(lrus):
         vs, e = guarded(lambda: th.lru_variations(l))
         ix = impl.Index("memory", {"k": "never"}, [])
@@ -440,6 +443,10 @@ def c17_rows(lrus):
         for v in (vs or []):
             mv, me = guarded(lambda: th.lru_variations(v))
             row["members"].append({"m": v, "vars": list(mv or []), "exc": me})
+        row["shared"] = []
+        for v in reversed(vs or []):
+            sv, se = guarded(lambda: shared.t.expand_prefix(v))
+            row["shared"].append({"m": v, "vars": list(sv or []), "exc": se})
         rule = {"k": "subdomain"}
         if vs and len(vs) <= 4:
             for v in vs:
@@ -455,6 +462,7 @@ def c17_rows(lrus):
                 finally:
                     ix.destroy()
         rows.append(row)
+    shared.destroy()
     return rows, skipped
 
 
